@@ -116,7 +116,7 @@ TABLE = [
     (r"scanner_mode::ScannerMode::new::\{closure#1\}$", "assert:BoundsCheck", 2, EL, "windows(2) yields slices of length 2"),
     # ---- dot export
     (r"ScannerImpl::generate_compiled_automata_as_dot$", "call:Option::unwrap", 1, PRE, "target_folder.to_str(): non-UTF-8 paths only (C18.d lists it)"),
-    (r"dot::render_compiled_dfa$", "call:ids::index", 0, ID, ""),
+    (r"dot::render_compiled_dfa$", "call:index", 2, ID, "end_states[id] with id in 0..states.len() and end_states.len() == states.len() (every constructor builds both with the same length)"),
 ]
 
 
